@@ -99,7 +99,7 @@ Proof.
         apply lt_not_eqb' in Hfm. congruence.
       * constructor.
         -- cbn [fst snd]. split; [exact Hlt|]. split; [exists t; left; reflexivity|].
-           intros x. rewrite has_type_cons_eq by apply name_eqb_refl. cbn [In]. rewrite A.
+           intros x. cbn [fst snd]. rewrite has_type_cons_eq by apply name_eqb_refl. cbn [In]. rewrite A.
            intuition congruence.
         -- eapply Forall_impl; [|exact B]. cbn beta. intros g [G1 G2]. split.
            ++ eapply name_cmp_trans; eassumption.
